@@ -2,6 +2,10 @@ import Chewing.Proofs.Uhash
 import Chewing.Proofs.Loader
 import Chewing.Proofs.WalkLookup
 import Chewing.Proofs.WalkEntries
+import Chewing.Proofs.WalkValid
+import Chewing.Proofs.WalkLinear
+import Chewing.Proofs.WalkThreads
+import Chewing.Proofs.WalkOpen
 import Chewing.Proofs.TrieWitness
 import Chewing.Proofs.Estimate
 /-!
@@ -22,12 +26,16 @@ field, in particular `parseIndex ib` for every byte string `ib` — and never in
 "never loops forever" = a fuel bound that depends on the size of the table only;
 "never allocates without bound" = a bound on the thread set / result length.
 
-Known findings on the unchanged tree (the trie side is NOT repaired):
-* F16 — an index that is not laid out parent-before-child (`¬ Forward`) makes `entries()` loop for
-  ever (`entries_terminates_refuted`, every amount of fuel); overlapping child ranges multiply the
-  thread set of a lookup (`lookup_threads_linear_refuted`).
-* F17 — a zero syllable at a non-first child position (`¬ NoZeroChild`) panics `entries()`
-  (`entries_no_panic_refuted`, both sites).
+Findings F16 / F17 (an index that is not a tree laid out parent-before-child made `entries()` loop for
+ever and multiplied the thread set of a lookup; a zero syllable at a non-first child position panicked
+`entries()`) were repaired by a `fix:` commit: `Trie::new` / `TrieOpenOptions::read_from` now run
+`validate_index` (`Model/TrieValidate.lean`, one linear pass) over the decoded index and return an ordinary
+`Err` unless the index is a tree in breadth-first order.  A traversal therefore only ever runs on a table
+with `validate t = true`, and for EVERY such table (`C12`): `entries()` never panics and returns within
+`16·n + 2` loop iterations (`n` = number of index records), a lookup returns for every query with a thread
+set of at most `n` members and an answer of at most `first` phrases.  The old witnesses are kept:
+`validate` rejects each of them (`witnesses_rejected`), and what the traversals would do on them without the
+validation is still proved (`unvalidated_*`).  `validate (write b) = true` is C11's `validate_write`.
 The legacy-file findings F14/F15/F39 were repaired by `fix:` commits; the model is of the repaired
 code and `uhash_total` holds without hypothesis (`uhash_orig_panics` keeps the old witnesses).
 F40 — a stored frequency within reach of `u32::MAX` aborted the first commit that learned the phrase
@@ -55,17 +63,21 @@ def StartTotal : Prop := ∀ (feat : Bool) (d : UserDir), Returns (load feat d)
 def LookupTotal : Prop :=
   ∀ (P : Type) (t : Tbl P) (pred : Nat → Nat → Bool) (first : Nat) (q : List Nat), Returns (lookup t pred first q)
 
-/-- … and its thread set stays linear in the table -/
+/-- … and, on a table `Trie::new` accepted, its thread set stays linear in the table -/
 def LookupThreadsLinear : Prop :=
   ∀ (P : Type) (t : Tbl P) (pred : Nat → Nat → Bool) (q : List Nat) (th : List Node),
-    (∀ syl ∈ q, pred 0 syl = false) → threads t pred q = .ok (some th) → th.length ≤ t.n
+    validate t = true → (∀ syl ∈ q, pred 0 syl = false) → threads t pred q = .ok (some th) → th.length ≤ t.n
 
-/-- enumerating any index table never panics -/
-def EntriesNoPanic : Prop := ∀ (P : Type) (t : Tbl P) (fuel : Nat) (s : String), entriesFuel t fuel ≠ .panic s
+/-- enumerating any table `Trie::new` accepted never panics -/
+def EntriesNoPanic : Prop :=
+  ∀ (P : Type) (t : Tbl P) (fuel : Nat) (s : String), validate t = true → entriesFuel t fuel ≠ .panic s
 
-/-- … and finishes -/
-def EntriesTerminates : Prop := ∀ (P : Type) (t : Tbl P), ∃ fuel, Returns (entriesFuel t fuel)
+/-- … and finishes within a number of loop iterations linear in the number of index records -/
+def EntriesTerminates : Prop := ∀ (P : Type) (t : Tbl P), validate t = true → Returns (entriesFuel t (16 * t.n + 2))
 
+/-- the full statement.  `validate t = true` is not an assumption about the file: it is the check `Trie::new`
+    performs (the model follows the code); a file that fails it is never traversed — `Trie::new` returns `Err`,
+    which the loaders pass on (`chewing_new2` returns NULL, the file is left untouched). -/
 def C12_full : Prop :=
   LegacyTotal ∧ LegacyBounded ∧ StartTotal ∧ LookupTotal ∧ LookupThreadsLinear ∧ EntriesNoPanic ∧ EntriesTerminates
 
@@ -209,15 +221,93 @@ theorem uhash_fixed_skips :
     loadUhash f14File = .ok (.ok []) ∧ loadUhash f15File = .ok (.ok []) ∧ loadUhash f39File = .ok (.ok []) := by
   exact ⟨by decide +kernel, by decide +kernel, by decide +kernel⟩
 
-/-! ## Trie lookup: total for every table; thread set bounded by `n^|q|` -/
+/-! ## Trie lookup: total for every table; thread set bounded by `n` on every validated table -/
 
 /-- `lookup_no_panic` (and termination: the model is structurally recursive) -/
 theorem lookup_total : LookupTotal := fun _ t pred first q => lookup_returns t pred first q
 
-/-- `lookup_steps_bound`: after `k` query syllables there are at most `n^k` threads, each expanded
-    by one bounded slice of at most `n` records -/
+/-- without the validation: after `k` query syllables there are at most `n^k` threads -/
 theorem lookup_threads_bound {P : Type} (t : Tbl P) (pred : Nat → Nat → Bool) (q : List Nat) (th : List Node)
     (h : threads t pred q = .ok (some th)) : th.length ≤ t.n ^ q.length := threads_length t pred q th h
+
+/-- `lookup_steps_bound`, linear: on a table `Trie::new` accepted the threads are distinct records in
+    ascending order, at most `n` of them whatever the query (`Proofs/WalkThreads.lean`) -/
+theorem lookup_threads_linear : LookupThreadsLinear :=
+  fun _ _ pred q th hv hp h => threads_length_linear hv pred q th hp h
+
+/-- the answer of a lookup is bounded by the caller's `first`, for every index table (repair of F11) -/
+theorem lookup_answer_bounded {P : Type} (t : Tbl P) (pred : Nat → Nat → Bool) (first : Nat) (q : List Nat) (r : List P)
+    (h : lookup t pred first q = .ok r) : r.length ≤ first :=
+  lookup_length_le_first t pred first q r h
+
+/-! ## Trie enumeration -/
+
+/-- `entries_no_panic`: no panic on any validated table, whatever the fuel -/
+theorem entries_no_panic : EntriesNoPanic :=
+  fun _ _ fuel s hv => entriesFuel_no_panic (valid_noZeroChild hv) fuel s
+
+/-- `entries_terminates`: at most `16·n + 2` iterations of the closure's loop.  The termination measure is
+    `phi` of `Proofs/WalkEntries.lean` with twice the subtree size as the weight of a record
+    (`Proofs/WalkLinear.lean`: `tick_phi` — every loop iteration strictly decreases it; `sz_root_le` — the
+    subtree of the root of a validated table has at most `n` records) -/
+theorem entries_terminates : EntriesTerminates := fun _ _ hv => entriesFuel_returns_linear hv _ (Nat.le_refl _)
+
+/-- the measure argument itself: one iteration of the closure's loop strictly decreases `phi` -/
+theorem entries_measure_decreases {P : Type} {t : Tbl P} (hv : validate t = true) {st st' : ESt P}
+    (hi : EInv t st) (hnf : st.phase ≠ .finished) (h : tick t st = .ok st') :
+    phi (subtreeWeights (valid_forward hv)) st' < phi (subtreeWeights (valid_forward hv)) st :=
+  tick_phi _ (valid_noZeroChild hv) hi hnf h
+
+/-- what `validate_index` establishes (the negations of the former finding classes F16 / F17) -/
+theorem validate_sound {P : Type} {t : Tbl P} (hv : validate t = true) :
+    Forward t ∧ NoZeroChild t ∧ DisjointRanges t ∧ Mono t ∧ AllInside t :=
+  ⟨valid_forward hv, valid_noZeroChild hv, valid_disjoint hv, valid_mono hv, valid_allInside hv⟩
+
+/-- **C12** -/
+theorem C12 : C12_full :=
+  ⟨uhash_total, uhash_bounded, start_total, lookup_total, lookup_threads_linear, entries_no_panic, entries_terminates⟩
+
+/-- session form, for ALL index bytes, data lengths and phrase decoders: `Trie::new` either rejects the
+    index, or every lookup and the whole enumeration return (no panic, linear bounds) -/
+theorem walk_total_after_open {P : Type} (ib : List Nat) (dl : Nat) (leaf : Nat → Nat → List P) :
+    let t : Tbl P := { recs := parseIndex ib, dataLen := dl, leaf := leaf }
+    validate t = false ∨
+    (validate t = true ∧
+      (∀ pred first q, ∃ r, lookup t pred first q = .ok r ∧ r.length ≤ first) ∧
+      (∀ pred q th, (∀ syl ∈ q, pred 0 syl = false) → threads t pred q = .ok (some th) → th.length ≤ t.n) ∧
+      Returns (entriesFuel t (16 * t.n + 2))) := by
+  intro t
+  cases hv : validate t with
+  | false => exact Or.inl rfl
+  | true =>
+    refine Or.inr ⟨rfl, ?_, fun pred q th hp h => threads_length_linear hv pred q th hp h,
+      entriesFuel_returns_linear hv _ (Nat.le_refl _)⟩
+    intro pred first q
+    obtain ⟨r, hr⟩ := lookup_returns t pred first q
+    exact ⟨r, hr, lookup_length_le_first t pred first q r hr⟩
+
+/-- **open_total** and the traversals, for ALL byte strings (byte-level model of `Trie::new`: C11's DER model of the
+    `der` crate, then `validate_index`): opening a file returns — `none` = an ordinary `Err` — and on every `Trie` it
+    returns, every lookup returns at most `first` phrases with at most `n` threads, and `entries()` returns without
+    panic within `16·n + 2` loop iterations (`n` = records of the index, at most one per 8 bytes of the file) -/
+theorem trie_file_total (bytes : Der.Bytes) :
+    TrieCodec.openTrie bytes = none ∨
+    ∃ t, TrieCodec.openTrie bytes = some t ∧
+      (∀ pred first q, ∃ r, lookup (tblOf t) pred first q = .ok r ∧ r.length ≤ first) ∧
+      (∀ pred q th, (∀ syl ∈ q, pred 0 syl = false) → threads (tblOf t) pred q = .ok (some th) →
+        th.length ≤ (tblOf t).n) ∧
+      (∀ fuel s, entriesFuel (tblOf t) fuel ≠ .panic s) ∧
+      Returns (entriesFuel (tblOf t) (16 * (tblOf t).n + 2)) := by
+  rcases open_then_valid bytes with h | ⟨t, h1, hv⟩
+  · exact Or.inl h
+  · refine Or.inr ⟨t, h1, ?_, fun pred q th hp h => threads_length_linear hv pred q th hp h,
+      fun fuel s => entriesFuel_no_panic (valid_noZeroChild hv) fuel s,
+      entriesFuel_returns_linear hv _ (Nat.le_refl _)⟩
+    intro pred first q
+    obtain ⟨r, hr⟩ := lookup_returns (tblOf t) pred first q
+    exact ⟨r, hr, lookup_length_le_first _ pred first q r hr⟩
+
+/-! ### the former findings F16 / F17: rejected by `validate_index`; what they did to the traversals -/
 
 /-- F16, allocation form: three records, all with child range `[0, 3)`; record 0 doubles as the leaf.
     Two query syllables give four threads (and four copies of the one phrase) from a three-record
@@ -225,75 +315,34 @@ theorem lookup_threads_bound {P : Type} (t : Tbl P) (pred : Nat → Nat → Bool
 def blowupTbl : Tbl Nat :=
   { recs := [⟨0, 3, 0⟩, ⟨0, 3, 10268⟩, ⟨0, 3, 10268⟩], dataLen := 3, leaf := fun _ _ => [7] }
 
-/-- the answer of a lookup is bounded by the caller's `first`, for every index table (repair of F11,
-    `result.truncate(first)`: the blow-up of F16 below concerns the thread set, no longer the answer) -/
-theorem lookup_answer_bounded {P : Type} (t : Tbl P) (pred : Nat → Nat → Bool) (first : Nat) (q : List Nat) (r : List P)
-    (h : lookup t pred first q = .ok r) : r.length ≤ first :=
-  lookup_length_le_first t pred first q r h
+/-- every former witness is rejected when the file is opened -/
+theorem witnesses_rejected :
+    validate loopTbl = false ∧ validate blowupTbl = false ∧ validate zeroSecondTbl = false ∧
+    validate zeroSiblingTbl = false := by decide
 
-theorem blowup_lookup : lookup blowupTbl (fun n s => n == s) 100 [10268, 10268] = .ok [7, 7, 7, 7] := by decide
+/-- without the validation (the walk of the pre-fix code = the same walk on an unvalidated table):
+    F16, the self-loop table never finishes … -/
+theorem unvalidated_entries_loop (fuel : Nat) : entriesFuel loopTbl fuel = .outOfFuel := loop_never_finishes fuel
 
-theorem lookup_threads_linear_refuted : ¬ LookupThreadsLinear := by
-  intro h
-  have h4 : threads blowupTbl (fun n s => n == s) [10268, 10268] =
+/-- … F16, overlapping child ranges multiply the thread set (4 threads from 3 records) … -/
+theorem unvalidated_lookup_blowup :
+    threads blowupTbl (fun n s => n == s) [10268, 10268] =
       .ok (some [(1, ⟨0, 3, 10268⟩), (2, ⟨0, 3, 10268⟩), (1, ⟨0, 3, 10268⟩), (2, ⟨0, 3, 10268⟩)]) := by decide
-  have := h Nat blowupTbl (fun n s => n == s) [10268, 10268] _ (by decide) h4
-  exact absurd this (by decide)
 
-theorem blowup_not_disjoint : ¬ DisjointRanges blowupTbl := by
-  intro h
-  have := h 1 2 (by decide) (by decide) (by decide) (Or.inr (by decide)) (Or.inr (by decide))
-    (by unfold InRange; decide) (by unfold InRange; decide)
-  revert this
-  decide
+/-- … F17, both panic sites -/
+theorem unvalidated_entries_panic :
+    entriesFuel zeroSecondTbl 100 = .panic "trie:zero-syllable-unwrap" ∧
+    entriesFuel zeroSiblingTbl 100 = .panic "trie:debug-assert-zero-syllable" :=
+  ⟨zeroSecond_panics, zeroSibling_panics⟩
 
-/-! ## Trie enumeration -/
-
-/-- `entries_no_panic`, partial: no zero syllable at a non-first child position (¬ F17) -/
-theorem entries_no_panic_partial {P : Type} {t : Tbl P} (hz : NoZeroChild t) (fuel : Nat) (s : String) :
-    entriesFuel t fuel ≠ .panic s := entriesFuel_no_panic hz fuel s
-
-theorem entries_no_panic_refuted : ¬ EntriesNoPanic := by
-  intro h
-  exact h Unit zeroSecondTbl 100 _ zeroSecond_panics
-
-/-- the second panic site of F17 (`debug_assert_ne!` while ascending) -/
-theorem entries_no_panic_refuted_ascend : entriesFuel zeroSiblingTbl 100 = .panic "trie:debug-assert-zero-syllable" :=
-  zeroSibling_panics
-
-/-- `entries_terminates`, partial: children after their parent (¬ F16) and ¬ F17.  The termination
-    measure is `phi` of `Proofs/WalkEntries.lean` (`tick_phi`: every loop iteration strictly
-    decreases it; `phi_init`: it starts at `8·2^n + 2`) -/
-theorem entries_terminates_partial {P : Type} {t : Tbl P} (hfw : Forward t) (hz : NoZeroChild t) :
-    Returns (entriesFuel t (8 * 2 ^ t.n + 2)) := entriesFuel_returns hfw hz _ (Nat.le_refl _)
-
-/-- the measure argument itself: one iteration of the closure's loop strictly decreases `phi` -/
-theorem entries_measure_decreases {P : Type} {t : Tbl P} (hfw : Forward t) (hz : NoZeroChild t) {st st' : ESt P}
-    (hi : EInv t st) (hnf : st.phase ≠ .finished) (h : tick t st = .ok st') : phi t st' < phi t st :=
-  tick_phi hfw hz hi hnf h
-
-theorem entries_terminates_refuted : ¬ EntriesTerminates := by
-  intro h
+/-- so the validation is necessary: the statement without its hypothesis is false -/
+theorem validation_needed :
+    ¬ (∀ (P : Type) (t : Tbl P), ∃ fuel, Returns (entriesFuel t fuel)) ∧
+    ¬ (∀ (P : Type) (t : Tbl P) (fuel : Nat) (s : String), entriesFuel t fuel ≠ .panic s) := by
+  refine ⟨fun h => ?_, fun h => h Unit zeroSecondTbl 100 _ zeroSecond_panics⟩
   obtain ⟨fuel, r, hr⟩ := h Unit loopTbl
   rw [loop_never_finishes fuel] at hr
   cases hr
-
-/-- the full statement is false on the unchanged tree … -/
-theorem C12_refuted : ¬ C12_full := fun h => entries_terminates_refuted h.2.2.2.2.2.2
-
-/-- … and this is what holds: everything about legacy files and lookups unconditionally, the
-    enumeration exactly outside the two known finding classes.  (`LookupThreadsLinear` under
-    `Forward ∧ DisjointRanges` is NOT proved here; the proved bound is `lookup_threads_bound`.) -/
-theorem C12_partial :
-    LegacyTotal ∧ LegacyBounded ∧ StartTotal ∧ LookupTotal ∧
-    (∀ (P : Type) (t : Tbl P) (pred : Nat → Nat → Bool) (q : List Nat) (th : List Node),
-      threads t pred q = .ok (some th) → th.length ≤ t.n ^ q.length) ∧
-    (∀ (P : Type) (t : Tbl P), NoZeroChild t → ∀ fuel s, entriesFuel t fuel ≠ .panic s) ∧
-    (∀ (P : Type) (t : Tbl P), Forward t → NoZeroChild t → Returns (entriesFuel t (8 * 2 ^ t.n + 2))) :=
-  ⟨uhash_total, uhash_bounded, start_total, lookup_total,
-   fun _ t pred q th h => lookup_threads_bound t pred q th h,
-   fun _ _ hz fuel s => entries_no_panic_partial hz fuel s,
-   fun _ _ hfw hz => entries_terminates_partial hfw hz⟩
 
 /-- raw-bytes form: any index bytes, any data length, any phrase decoder -/
 theorem walk_total_on_bytes {P : Type} (ib : List Nat) (dl : Nat) (leaf : Nat → Nat → List P)
@@ -327,37 +376,15 @@ theorem stored_freq_overflow_witness : Learn.estimate 5 4294967295 none 0 0 = .o
 
 /-! ## Non-vacuity -/
 
-theorem good_forward : Forward goodTbl := by
-  intro i hi _ hr
-  have hn : goodTbl.n = 7 := rfl
-  rw [hn] at hi
-  unfold InRange at hr
-  have h : ∀ j, j < 7 → 0 < (goodTbl.get j).b ∧ (goodTbl.get j).a + (goodTbl.get j).b ≤ 7 → j < (goodTbl.get j).a := by decide
-  exact h i hi (hn ▸ hr)
+/-- the index of a real three-entry file passes `validate_index`, and the walk yields its three leaves within
+    the linear bound (7 records: 114 iterations) -/
+example : validate goodTbl = true ∧
+    entriesFuel goodTbl (16 * goodTbl.n + 2) = .ok [([6664], [0]), ([8712, 6664], [20]), ([8712], [10])] :=
+  ⟨by decide, by rfl⟩
 
-theorem good_noZeroChild : NoZeroChild goodTbl := by
-  intro i hi hnode hr j h1 h2
-  have hn : goodTbl.n = 7 := rfl
-  rw [hn] at hi
-  unfold InRange at hr
-  rw [hn] at hr
-  have hj : j < 7 := by omega
-  have h : ((List.range 7).all fun i => (List.range 7).all fun j =>
-      !(decide ((goodTbl.get i).a < j) && decide (j < (goodTbl.get i).a + (goodTbl.get i).b)
-        && decide ((goodTbl.get i).a + (goodTbl.get i).b ≤ 7)) || decide ((goodTbl.get j).s ≠ 0)) = true := by decide
-  have := List.all_eq_true.mp (List.all_eq_true.mp h i (List.mem_range.mpr hi)) j (List.mem_range.mpr hj)
-  simp only [Bool.or_eq_true, Bool.not_eq_true', Bool.and_eq_false_iff, decide_eq_false_iff_not, decide_eq_true_eq] at this
-  rcases this with ((h | h) | h) | h
-  · exact absurd h1 h
-  · exact absurd h2 h
-  · exact absurd hr.2 h
-  · exact h
-
-/-- the hypotheses of the partial theorems hold for the index of a real three-entry file, and the
-    walk yields its three leaves -/
-example : Forward goodTbl ∧ NoZeroChild goodTbl ∧
-    entriesFuel goodTbl 100 = .ok [([6664], [0]), ([8712, 6664], [20]), ([8712], [10])] :=
-  ⟨good_forward, good_noZeroChild, good_entries⟩
+/-- one overwritten field of it (record 2's child begin 4 -> 2: the node becomes its own child) is rejected -/
+example : validate ({ goodTbl with recs := [⟨1, 2, 0⟩, ⟨3, 1, 6664⟩, ⟨2, 2, 8712⟩, ⟨0, 10, 0⟩, ⟨10, 10, 0⟩, ⟨6, 1, 6664⟩, ⟨20, 13, 0⟩] } : Tbl Nat) = false := by
+  decide
 
 /-- a valid binary legacy file with one live record is imported (the total theorems are not about
     a reader that rejects everything) -/
